@@ -412,9 +412,10 @@ impl Oplog {
         let to_hash = &buffer[CRC_SIZE..LEADER_SIZE + len];
         let calculated_checksum = crc32fast::hash(to_hash);
         if calculated_checksum != stored_checksum {
-            return Err(HypercoreError::InvalidChecksum {
-                context: format!("Calculated signature [{calculated_checksum}] does not match oplog signature [{stored_checksum}]"),
-            });
+            // A header or entry whose checksum does not match was not written completely
+            // (torn write): it is treated as absent, like in the Javascript implementation,
+            // so that the other header slot / the entries before it are used.
+            return Ok(None);
         };
         Ok(Some(ValidateLeaderOutcome {
             header_bit,
